@@ -417,7 +417,7 @@ nameReference:
 
 - kind: IngressClass
   version: v1
-  group: networking.k8s.io/v1
+  group: networking.k8s.io
   fieldSpecs:
   - path: spec/ingressClassName
     kind: Ingress
